@@ -123,7 +123,7 @@ theorem C14_crash_points_classified (cs : List Sys) :
 example : KStep Fix.fixed (fun _ c => 0 :: c) id (FS.fresh [1]) (.runKilledAfterBackup 0)
     ⟨some [1], some [0], some [1], none⟩ := by
   refine ⟨[.creat .bak, .write .bak [1], .creat .tmp], ?_, by simp [early], ⟨[1], by simp⟩⟩
-  simp [runProg, doSourceFile, restPart, backupPart, fmtPart, finishPart, md5Part, Fix.fixed, Mode.backup, CrashAt,
+  simp [runProg, doSourceFile, restPart, backupPart, fmtPart, finishPart, md5Part, Fix.fixed, FsMode.backup, CrashAt,
     torn, FS.get, FS.set, step, FS.fresh]
   exact ⟨1, rfl⟩
 
@@ -138,7 +138,7 @@ theorem C14_crash_window_witness :
       (runHist Fix.fixed F h s2 [.run 1]).bak ≠ some u ∧ (runHist Fix.fixed F h s2 [.run 1]).target ≠ some u := by
   refine ⟨fun cfg c => if c.head? = some cfg then c else cfg :: c, id, [7], _, ⟨some [1, 0, 7], none, some [7], some [0, 7]⟩,
     [.creat .tmp, .write .tmp [1, 0, 7], .rename .tmp .target], fun _ _ hab => hab, rfl, ?_, ?_, by decide, by decide⟩
-  · simp [runProg, doSourceFile, restPart, backupPart, fmtPart, finishPart, md5Part, Fix.fixed, Mode.backup, CrashAt,
+  · simp [runProg, doSourceFile, restPart, backupPart, fmtPart, finishPart, md5Part, Fix.fixed, FsMode.backup, CrashAt,
       torn, FS.get, FS.set, step, FS.fresh, runHist, applyOp, exec, execFrom, Result.push, Result.fs]
   · exact ⟨Or.inl (by simp), by intro bs; simp⟩
 
@@ -153,7 +153,7 @@ theorem C14_torn_backup_witness :
       s1.bak = some u ∧ s2.bak = some [] ∧ s2.target = some x := by
   refine ⟨fun cfg c => if c.head? = some cfg then c else cfg :: c, id, [7], [8], _, ⟨some [8], none, some [], some [0, 7]⟩,
     [.creat .bak], fun _ _ hab => hab, rfl, ?_, ⟨by simp, by intro bs; simp⟩, by decide, rfl, rfl⟩
-  simp [runProg, doSourceFile, restPart, backupPart, fmtPart, finishPart, md5Part, Fix.fixed, Mode.backup, CrashAt,
+  simp [runProg, doSourceFile, restPart, backupPart, fmtPart, finishPart, md5Part, Fix.fixed, FsMode.backup, CrashAt,
     torn, FS.get, FS.set, step, FS.fresh, runHist, applyOp, exec, execFrom, Result.push, Result.fs]
 
 end Unc
